@@ -181,6 +181,63 @@ def forRange {α σ ρ : Type} (xs : List α) (s : σ) (f : α → σ → Ctl σ
     | .brk s' => .next s'
     | .ret r => .ret r
 
+/-! ## cache.go: the struct its methods change in place, `container/list`, the two maps
+
+The translated methods of `*Cache` take the struct and return the new one.  An element of the LRU list (`*list.Element`) is
+identified by the value it holds (`lruEntry{key}`, i.e. the key): `Remove(e)` / `MoveToBack(e)` act on the first element holding
+that key, `e.Next()` is the element after it.  That is what `container/list` does as long as no two elements of the list hold the
+same key; the refinement theorems (`Oidc/Proofs/CodeCache.lean`) carry that as part of their invariant and show that every
+translated method preserves it, so it holds in every state reachable from `NewCache()`.  A Go map is an association list with one
+entry per key (its iteration order is arbitrary: the one loop over a map, in `Cleanup`, is shown not to depend on it). -/
+abbrev Elem := Str
+def lruEntry (k : Str) : Elem := k
+def lruKey (e : Elem) : Str := e
+/-- `elem.Value.(lruEntry)` (Go panics on a nil element; the code reaches it only under `elem != nil`) -/
+def elemValue (e : Option Elem) : Elem := e.getD []
+
+structure CacheItem where
+  Value : Any
+  ExpiresAt : Time
+
+structure CacheS where
+  items : List (Str × CacheItem)
+  order : List Elem
+  elems : List (Str × Elem)
+  maxSize : Int
+
+def cmapGet (m : List (Str × CacheItem)) (k : Str) : CacheItem × Bool :=
+  match m.find? (fun p => p.1 == k) with
+  | some p => (p.2, true)
+  | none => (⟨.nil, 0⟩, false)
+def cmapSet (m : List (Str × CacheItem)) (k : Str) (v : CacheItem) : List (Str × CacheItem) := m.filter (fun p => p.1 != k) ++ [(k, v)]
+def cmapDel (m : List (Str × CacheItem)) (k : Str) : List (Str × CacheItem) := m.filter (fun p => p.1 != k)
+def emapGet (m : List (Str × Elem)) (k : Str) : Option Elem × Bool :=
+  match m.find? (fun p => p.1 == k) with
+  | some p => (some p.2, true)
+  | none => (none, false)
+def emapSet (m : List (Str × Elem)) (k : Str) (e : Option Elem) : List (Str × Elem) := (k, e.getD []) :: m.filter (fun p => p.1 != k)
+def emapDel (m : List (Str × Elem)) (k : Str) : List (Str × Elem) := m.filter (fun p => p.1 != k)
+
+def listFront (l : List Elem) : Option Elem := l.head?
+/-- `e.Next()`: the element after (the first occurrence of) `e`, nil at the end -/
+def listNext : List Elem → Option Elem → Option Elem
+  | _, none => none
+  | [], some _ => none
+  | x :: rest, some e => if x = e then rest.head? else listNext rest (some e)
+def listPushBack (l : List Elem) (v : Elem) : Option Elem × List Elem := (some v, l ++ [v])
+def listMoveToBack (l : List Elem) (e : Option Elem) : List Elem :=
+  match e with
+  | some x => if x ∈ l then l.erase x ++ [x] else l
+  | none => l
+def listRemove (l : List Elem) (e : Option Elem) : List Elem :=
+  match e with
+  | some x => l.erase x
+  | none => l
+
+/-- `time.Duration(float64(d) * p/q)` for a decimal constant `p/q`: the product truncated toward zero (float rounding aside: the one
+    use, in `Cleanup`, only needs that the result lies between 0 and `d` for `d ≥ 0`) -/
+def durScale (d : Duration) (p q : Int) : Duration := if 0 ≤ d * p then (d * p) / q else -((-(d * p)) / q)
+
 /-! ## the state shared between requests: token cache, revocation list, limiter
 
 The translated `VerifyToken`, `RevokeToken` and their helpers take the state as an argument and return the new one; what the
